@@ -430,6 +430,8 @@ def end_to_end(s):
               ("synthetic", {"seed": s.seed + 2, "system": "monoclinic", "gamma_first": False, "nq": 1, "na": 1, "nv": 4, "static_order": "ascending"}, "synthetic"),
               ("synthetic", {"seed": s.seed + 3, "system": "cubic", "nq": 8, "na": 3, "nv": 12, "static_nv": 4, "lattice": True}, "synthetic"),
               ("synthetic", {"seed": s.seed + 5, "system": "cubic", "nq": 1, "na": 10, "nv": 5, "lattice": False}, "synthetic"),
+              # an axis that lengthens under compression (negative linear compressibility): its strain fraction is negative, and stays so
+              ("synthetic", {"seed": s.seed + 6, "system": "orthorhombic", "nq": 2, "na": 1, "lattice": "auxetic"}, "synthetic"),
               # a SQUARE (T, V) grid: NT + 4 temperature rows = NTV volumes (an axis picked by its length goes wrong exactly there)
               ("synthetic", {"seed": s.seed + 4, "system": "orthorhombic", "settings": {"qha": {"settings": {"NT": 17, "DT": 100, "DT_SAMPLE": 100, "NTV": 21}}}}, "synthetic")]
     if s.tier == "thorough":
